@@ -29,7 +29,7 @@ DECIDED = [
     'where it is appended (branch conditions plus inductive loop invariants), yp[0] at or below the first abscissa, '
     'yp[-1] at or above the last, a node\'s ordinate at the node, or the straight line through two adjacent nodes that '
     'bracket the query; every index is in range - proved by Houdini-inferred invariants and Fourier-Motzkin refutation '
-    '(engine E); an unproved obligation becomes a violation only with a concrete counterexample from the finite '
+    '(engine F); an unproved obligation becomes a violation only with a concrete counterexample from the finite '
     'input family (which also exposes a search that never terminates or skips a query)',
 ]
 NOT_DECIDED = ['termination of the search for lists longer than the finite family; the single-BC equivalence as numbers']
@@ -166,7 +166,7 @@ def run(prog: Program, rep, thorough: bool) -> None:
 
 
 def check_interpolation(prog: Program, rep, ev: Evaluator, rule: str) -> None:
-    """linear_interpolation decided for every query and every table length (engine E): each value appended to the
+    """linear_interpolation decided for every query and every table length (engine F): each value appended to the
     result is, under the facts that hold where it is appended (branch conditions plus inductive loop invariants),
     the first ordinate at or below the first abscissa, the last at or above the last, a node's ordinate at that node,
     or the straight line through two adjacent nodes that bracket the query; every index is in range.  Abscissae are
@@ -272,7 +272,7 @@ def check_interpolation(prog: Program, rep, ev: Evaluator, rule: str) -> None:
     try:
         res_ = L.analyse_search(li.node, roles, goal, inputs(), oracle)
     except L.Unsupported as exc:
-        rep.undecided(rule, li.where, 'linear_interpolation', f'outside the fragment engine E reads: {exc}')
+        rep.undecided(rule, li.where, 'linear_interpolation', f'outside the fragment engine F reads: {exc}')
         return
     rep.extra['interpolation_proof'] = {
         'loops': res_.loop_info, 'invariants': list(res_.invariants.values()), 'prover_calls': res_.prover_calls,
